@@ -63,6 +63,9 @@ WL_SCHEMA = API_SCHEMA + [
     o_sec("multi", [o_int("m", 1), o_sec("deep", [o_str("z", "zz"), o_list("str", "zl", "{a}")], F_MULTI | F_TITLE)], F_MULTI),
     o_sec("kvm", [o_str("known", "k")], F_KEYSTRVAL | F_MULTI | F_TITLE),
     o_simple("str", "ss", "init"), o_simple("int", "si", 5), o_simple("float", "sf", "1.5"), o_simple("bool", "sb", 0),
+    # declared annotations together with string / list defaults and inside sections created later
+    o_str("anns", "dflt", 0, CB_COMMENT), o_list("str", "annl", "{a, b}", 0, CB_COMMENT),
+    o_sec("annsec", [o_str("cz", "zz", 0, CB_COMMENT), o_list("int", "cl", "{1}", 0, CB_COMMENT), o_int("ci", 3, 0, CB_COMMENT)], F_MULTI | F_TITLE),
 ]
 HAND["c18wl"] = WL_SCHEMA
 
@@ -116,6 +119,9 @@ def workloads():
         ["setint", 1, hx("si"), 0, hx("3")], ["setmulti", 1, hx("ss"), 2, hx("g1"), hx("g2")], ["setmulti", 1, hx("ss"), 3, hx("g1"), hx("g2"), "~"],
         ["setmulti", 1, hx("si"), 2, hx("1"), hx("bad")], ["getopt", 1, hx("ss"), 70], ["setopt", 1, 70, hx("viasetopt")],
         ["getstr", 1, hx("ss"), 0], ["getint", 1, hx("si"), 0], ["setcomment", 1, hx("ss"), hx("c")], ["oprint", 70, 1]])
+    W["declared-annotations"] = (F_COMMENTS, [
+        ["parse_buf", 1, hx("annsec a { cz = x }\nannsec b { }\nanns = y\n")], ["addtsec", 1, hx("annsec"), hx("c"), 71],
+        ["rmtsec", 1, hx("annsec"), hx("a")], ["getcomment", 1, hx("anns")], ["getcomment", 1, hx("annsec=b|cz")]])
     W["tilde"] = (0, [["tilde", hx("~")], ["tilde", hx("~/x")], ["tilde", hx("~root")], ["tilde", hx("~root/x/y")],
                       ["tilde", hx("~nosuchuser/x")], ["tilde", hx("plain")], ["tilde", hx("")], ["searchpath", 1, hx("~/dir")],
                       ["searchpath", 1, hx("~nosuchuser")], ["findfile", 1, hx("x")]])
